@@ -173,3 +173,44 @@ func skipSexp(r string) string {
 }
 
 var _ = time.Now
+
+// oneShot decides pc ∧ extra with fresh non-incremental solver processes (z3, then z3-new, then
+// cvc5): the incremental core is much weaker on floating-point conversions.
+func (e *Explorer) oneShot(extra string) string {
+	var sb strings.Builder
+	for _, d := range e.decls {
+		sb.WriteString(d + "\n")
+	}
+	for _, c := range e.pc {
+		sb.WriteString("(assert " + c + ")\n")
+	}
+	if extra != "" && extra != "true" {
+		sb.WriteString("(assert " + extra + ")\n")
+	}
+	sb.WriteString("(check-sat)\n")
+	e.OneShots++
+	for _, cmdline := range [][]string{{"z3", "-in", "-T:30"}, {"z3-new", "-in", "-T:30"}, {"cvc5", "--lang=smt2", "--tlimit=30000", "-"}} {
+		cmd := exec.Command(cmdline[0], cmdline[1:]...)
+		text := sb.String()
+		if cmdline[0] == "cvc5" {
+			text = "(set-logic ALL)\n" + text
+		}
+		cmd.Stdin = strings.NewReader(text)
+		out, _ := cmd.Output()
+		ans := "unknown"
+		bad := false
+		for _, l := range strings.Split(string(out), "\n") {
+			l = strings.TrimSpace(l)
+			if strings.HasPrefix(l, "(error") {
+				bad = true
+			}
+			if l == "sat" || l == "unsat" {
+				ans = l
+			}
+		}
+		if !bad && ans != "unknown" {
+			return ans
+		}
+	}
+	return "unknown"
+}
